@@ -86,6 +86,18 @@ Fixpoint generic_scan_cost (depth : nat) (ts : list tok) : nat :=
   | _ :: r => S (generic_scan_cost depth r)
   end.
 
+(* tokens read by all look-aheads that parsePrimary starts on a token list: one scan per
+   position "identifier <" *)
+Fixpoint scan_total (ts : list tok) : nat :=
+  match ts with
+  | [] => 0
+  | TId _ :: r => match r with
+                  | TOp LtO :: r1 => generic_scan_cost 1 r1 + scan_total r
+                  | _ => scan_total r
+                  end
+  | _ :: r => scan_total r
+  end.
+
 (* the type-argument list of a generic call *)
 Fixpoint targs_one (d : nat) (ne : bool) (ts : list tok) : option (bool * list tok) :=
   match ts with
